@@ -237,7 +237,10 @@ Escape(s, i) == IF i > Len(s) THEN ""
 DoubleRaw(s, i) == IF i > Len(s) THEN ""
                    ELSE (IF Ch(s, i) = "¬" THEN "¬¬" ELSE Ch(s, i)) \o DoubleRaw(s, i + 1)
 
-JsonLooking(s) == Len(s) >= 3 /\ SubSeq(s, 1, 2) = "{\"" /\ Ch(s, Len(s)) = "}"
+RECURSIVE HasNewline(_, _)
+HasNewline(s, i) == i <= Len(s) /\ (Ch(s, i) = "\n" \/ HasNewline(s, i + 1))
+\* raw form for one-line JSON-looking strings (a printed value never spans lines: C15)
+JsonLooking(s) == Len(s) >= 3 /\ SubSeq(s, 1, 2) = "{\"" /\ Ch(s, Len(s)) = "}" /\ ~HasNewline(s, 1)
 
 PrintStr(s) == IF JsonLooking(s) THEN "¬" \o DoubleRaw(s, 1) \o "¬"
                ELSE "\"" \o Escape(s, 1) \o "\""
